@@ -138,7 +138,7 @@ def _cells(co):
     return out
 
 
-def project(obj):
+def _project(obj):
     import biotite.structure as struc
 
     np = _np()
@@ -151,8 +151,12 @@ def project(obj):
         if len(obj.get_annotation(c)) != n:
             problems.append(f"annotation {c} has length {len(obj.get_annotation(c))} != {n}")
     co = obj.coord
-    if co is None or co.shape[-2:] != (n, 3):
-        problems.append(f"coord shape {None if co is None else co.shape}")
+    want_shape = (n, 3) if kind == "array" else (obj.stack_depth(), n, 3)
+    if co is None or co.ndim != len(want_shape) or co.shape[-2:] != (n, 3):
+        # length / depth / dimensionality of the coordinates do not match the container
+        return {"kind": kind, "a": [], "z": [[]], "box": [], "bonds": [], "ex": [],
+                "incoherent": [f"coord shape {None if co is None else tuple(co.shape)} on a {kind} of "
+                               f"{n} atoms"]}
     names = obj.atom_name.tolist()
     a = []
     for nm, tag in zip(names, obj.res_id.tolist()):
@@ -167,6 +171,11 @@ def project(obj):
     box = []
     if obj.box is not None:
         bx = obj.box if kind == "stack" else obj.box[None]
+        if bx.ndim != 3 or bx.shape[1:] != (3, 3):
+            problems.append(f"box shape {tuple(obj.box.shape)} on a {kind}")
+            bx = np.zeros((0, 3, 3))
+        elif kind == "stack" and bx.shape[0] != co.shape[0]:
+            problems.append(f"{bx.shape[0]} boxes for {co.shape[0]} models")
         vals = []
         for m in bx:
             v = float(m[0, 0])
@@ -194,23 +203,96 @@ def project(obj):
     return out
 
 
-def to_index(x):
+def project(obj):
+    """Real object -> the specification's abstract value (plus an "incoherent" list when length,
+    depth or shapes of the parts do not describe the same atoms and models)."""
+    import biotite.structure as struc
+
+    try:
+        return _project(obj)
+    except Exception as e:  # noqa: BLE001 - an object that cannot even be read is incoherent
+        kind = "array" if isinstance(obj, struc.AtomArray) else "stack"
+        return {"kind": kind, "a": [], "z": [[]], "box": [], "bonds": [], "ex": [],
+                "incoherent": [f"projection failed: {type(e).__name__}: {e}"]}
+
+
+class DriverError(Exception):
+    """A request the driver cannot realise (outside the form domain): machinery, never a verdict."""
+
+
+_NPT = {"i8": "int8", "i16": "int16", "i32": "int32", "i64": "int64",
+        "u8": "uint8", "u16": "uint16", "u32": "uint32", "u64": "uint64"}
+INT_FORMS = ("py",) + tuple(_NPT) + ("a0",)
+SCALAR_INT_FORMS = ("py",) + tuple(_NPT)
+ARR_FORMS = ("list",) + tuple(_NPT)
+MASK_FORMS = ("np", "list")
+SLICE_FORMS = ("py", "np")
+
+
+def fits_form(v, form):
+    """The specification's FitsForm."""
     np = _np()
-    kind, p = x[0], x[1]
+    if form in _NPT:
+        info = np.iinfo(_NPT[form])
+        return info.min <= int(v) <= info.max
+    return True
+
+
+def int_form(v, form):
+    """Integer v handed over in the given form (specification: IntForms)."""
+    np = _np()
+    v = int(v)
+    if form == "py":
+        return v
+    if form == "a0":
+        return np.array(v, dtype=np.int64)  # zero-dimensional integer array
+    if form in _NPT:
+        if not fits_form(v, form):
+            raise DriverError(f"{v} does not fit {form} (outside Dom_Form)")
+        return getattr(np, _NPT[form])(v)
+    raise DriverError(f"unknown integer form {form!r}")
+
+
+def scalar_form(v, form):
+    """Integer position of a deletion / assignment (specification: Dom_IntForm)."""
+    if form not in SCALAR_INT_FORMS:
+        raise DriverError(f"form {form!r} is not a scalar integer form (outside Dom_IntForm)")
+    return int_form(v, form)
+
+
+def to_index(x):
+    """Index object <<kind, payload, form>> of the specification -> the real index object."""
+    np = _np()
+    kind, p, form = x[0], x[1], x[2]
     if kind == "int":
-        return int(p[0])
+        return int_form(p[0], form)
     if kind == "slice":
-        a, b, c = [None if len(o) == 0 else int(o[0]) for o in p]
+        if form not in SLICE_FORMS:
+            raise DriverError(f"unknown slice form {form!r}")
+        conv = np.int64 if form == "np" else int
+        a, b, c = [None if len(o) == 0 else conv(int(o[0])) for o in p]
         return slice(a, b, c)
     if kind == "mask":
+        if form == "list":
+            return [bool(v) for v in p]
+        if form != "np":
+            raise DriverError(f"unknown mask form {form!r}")
         return np.array([bool(v) for v in p], dtype=bool)
     if kind == "arr":
-        return np.array([int(v) for v in p], dtype=np.int64)
+        if form == "list":
+            return [int(v) for v in p]
+        if form not in _NPT:
+            raise DriverError(f"unknown array form {form!r}")
+        if not all(fits_form(v, form) for v in p):
+            raise DriverError(f"{p} does not fit {form} (outside Dom_Form)")
+        return np.array([int(v) for v in p], dtype=_NPT[form])
+    if form != "py":
+        raise DriverError(f"unknown form {form!r} for {kind}")
     if kind == "all":
         return slice(None)
     if kind == "ell":
         return Ellipsis
-    raise ValueError(kind)
+    raise DriverError(kind)
 
 
 def operand(obj, desc):
@@ -294,40 +376,40 @@ def apply_real(obj, op, arg):
         if op == "del_atom":
             if kind != "array":
                 raise TypeError("no public atom deletion on stacks")
-            del obj[int(arg[0])]
+            del obj[scalar_form(arg[0], arg[1])]
             return obj, "ok", []
         if op == "del_model":
             if kind != "stack":
                 raise TypeError("del_model is defined for stacks")
-            del obj[int(arg[0])]
+            del obj[scalar_form(arg[0], arg[1])]
             return obj, "ok", []
         if op == "set_atom":
             if kind != "array":
                 raise TypeError("stack[i] = atom is not part of the API")
             ex = [c for c in EXTRAS if c in obj.get_annotation_categories()]
-            obj[int(arg[0])] = make_atom(arg[1], arg[2], arg[3], ex)
+            obj[scalar_form(arg[0], arg[4])] = make_atom(arg[1], arg[2], arg[3], ex)
             return obj, "ok", []
         if op == "swap_atoms":
             if kind != "array":
                 raise TypeError("swap_atoms is defined for arrays")
-            i, j = int(arg[0]), int(arg[1])
-            tmp = obj[i]
-            obj[i] = obj[j]
-            obj[j] = tmp
+            # fresh index objects for every use (a numpy scalar is immutable, but so is the habit)
+            tmp = obj[scalar_form(arg[0], arg[2])]
+            obj[scalar_form(arg[0], arg[2])] = obj[scalar_form(arg[1], arg[3])]
+            obj[scalar_form(arg[1], arg[3])] = tmp
             return obj, "ok", []
         if op == "take_then_overwrite":
             if kind != "array":
                 raise TypeError("take_then_overwrite is defined for arrays")
             ex = [c for c in EXTRAS if c in obj.get_annotation_categories()]
-            tmp = obj[int(arg[0])]
-            obj[int(arg[0])] = make_atom(arg[1], arg[2], arg[3], ex)
+            tmp = obj[scalar_form(arg[0], arg[4])]
+            obj[scalar_form(arg[0], arg[4])] = make_atom(arg[1], arg[2], arg[3], ex)
             cell = _cells(np.asarray(tmp.coord)[None])[0]
             return obj, "ok", [int(tmp.atom_name[1:]), int(tmp.res_id), cell]
         if op == "set_model":
             if kind != "stack":
                 raise TypeError("set_model is defined for stacks")
-            arr = _shifted(obj.get_array(int(arg[1])), arg[2])
-            obj[int(arg[0])] = arr
+            arr = _shifted(obj.get_array(scalar_form(arg[1], arg[4])), arg[2])
+            obj[scalar_form(arg[0], arg[3])] = arr
             return obj, "ok", []
         if op == "set_annot":
             o = obj
@@ -392,7 +474,7 @@ def apply_real(obj, op, arg):
             bx = np.stack([box_matrix(4) for _ in range(k)]) if with_box else None
             return struc.from_template(obj, co, bx), "ok", []
         raise ValueError(op)
-    except AssertionError:
+    except (AssertionError, DriverError):
         raise
     except Exception:  # noqa: BLE001 - "Rejected" = any exception
         return obj, "Rejected", []
@@ -451,10 +533,16 @@ def exec_path(item):
             done.append([op, arg])
             bad, obs = check_step(obj2, oc, out, exp)
             if bad:
-                mism.append({"kind": "step", "op": op, "arg": arg, "bad": bad, "history": list(done),
-                             "expected": {"oc": exp["oc"], "out": exp["out"], "S": _canon(exp["S"])},
-                             "observed": {"oc": oc, "out": out, "S": obs}})
-                break
+                rec = {"kind": "step", "op": op, "arg": arg, "bad": bad, "history": list(done),
+                       "expected": {"oc": exp["oc"], "out": exp["out"], "S": _canon(exp["S"])},
+                       "observed": {"oc": oc, "out": out, "S": obs}}
+                mism.append(rec)
+                if classify(rec) is None:
+                    break
+                # a listed finding: go on from the specification's state so that the transitions
+                # behind this one are still executed
+                obj2 = build(_canon(exp["S"]))
+                done = [["new", _canon(exp["S"])]]
             obj = obj2
     return {"mismatch": mism, "steps": n}
 
@@ -480,16 +568,35 @@ def _rand_obj(rng, nmax, dmax):
             "box": box, "bonds": bonds, "ex": sorted(ex)}
 
 
+def _pick_form(rng, forms, default, values=()):
+    """Half of the time the default form, otherwise any form of the family that can hold the
+    values (specification: Dom_Form / FitsForm)."""
+    if rng.random() < 0.5:
+        return default
+    ok = [f for f in forms if all(fits_form(v, f) for v in values)]
+    return rng.choice(ok)
+
+
+def _int_form(rng, v, scalar_only=False):
+    if scalar_only:
+        return _pick_form(rng, SCALAR_INT_FORMS, "py", [v])
+    if rng.random() < 0.05:
+        return "a0"
+    return _pick_form(rng, SCALAR_INT_FORMS, "py", [v])
+
+
 def _rand_1d(rng, n):
     k = rng.random()
     if k < 0.15 and n > 0:
-        return ["int", [rng.randint(-n, n - 1)]]
+        v = rng.randint(-n, n - 1)
+        return ["int", [v], _int_form(rng, v)]
     if k < 0.45:
         def c():
             return [] if rng.random() < 0.3 else [rng.randint(-n - 2, n + 2)]
-        return ["slice", [c(), c(), [] if rng.random() < 0.4 else [rng.choice([-3, -2, -1, 1, 2, 3])]]]
+        return ["slice", [c(), c(), [] if rng.random() < 0.4 else [rng.choice([-3, -2, -1, 1, 2, 3])]],
+                _pick_form(rng, SLICE_FORMS, "py")]
     if k < 0.65:
-        return ["mask", [rng.random() < 0.6 for _ in range(n)]]
+        return ["mask", [rng.random() < 0.6 for _ in range(n)], _pick_form(rng, MASK_FORMS, "np")]
     if k < 0.9:
         pool = list(range(n))
         rng.shuffle(pool)
@@ -498,8 +605,29 @@ def _rand_1d(rng, n):
             arr.append(arr[0])
         if rng.random() < 0.08:
             arr.append(n)
-        return ["arr", arr]
-    return ["all", []]
+        return ["arr", arr, _pick_form(rng, ARR_FORMS, "i64", arr)]
+    return ["all", [], "py"]
+
+
+ELL = ["ell", [], "py"]
+
+
+def _has_str(x):
+    if isinstance(x, str):
+        return True
+    if isinstance(x, (list, tuple)):
+        return any(_has_str(v) for v in x)
+    return False
+
+
+def _tlc_safe(obs):
+    """An observation that cannot be written as a value of the specification (incoherent parts,
+    values that are not the realisation of any abstract value) is logged as an object that no
+    expected state equals - TLC reports the event, the raw projection is kept aside."""
+    if "incoherent" not in obs and not any(_has_str(obs[k]) for k in ("a", "z", "box", "bonds")):
+        return obs, True
+    return {"kind": obs["kind"], "a": [], "z": [[]], "box": [], "bonds": [],
+            "ex": ["!incoherent"], "raw": json.dumps(obs, default=str)}, False
 
 
 def gen_trace(item):
@@ -510,8 +638,11 @@ def gen_trace(item):
     S0 = _rand_obj(rng, item["nmax"], item["dmax"])
     events = []
     obj, oc, out = apply_real(None, "new", S0)
-    events.append({"op": "new", "arg": S0, "oc": oc, "out": out, "obs": project(obj)})
+    obs, good = _tlc_safe(project(obj))
+    events.append({"op": "new", "arg": S0, "oc": oc, "out": out, "obs": obs})
     for _ in range(item["length"]):
+        if not good:
+            break  # nothing can be said about what follows an incoherent object
         kind = "array" if isinstance(obj, struc.AtomArray) else "stack"
         n = obj.array_length()
         d = 1 if kind == "array" else obj.stack_depth()
@@ -525,13 +656,13 @@ def gen_trace(item):
                 if rng.random() < 0.8:
                     arg = ["1d", _rand_1d(rng, n)]
                 else:
-                    arg = ["2d", ["ell", []], _rand_1d(rng, n)]
+                    arg = ["2d", ELL, _rand_1d(rng, n)]
             else:
                 if rng.random() < 0.3:
                     i0 = _rand_1d(rng, d)
-                    arg = ["1d", i0 if rng.random() < 0.9 else ["ell", []]]
+                    arg = ["1d", i0 if rng.random() < 0.9 else ELL]
                 else:
-                    i0 = _rand_1d(rng, d) if rng.random() < 0.7 else ["ell", []]
+                    i0 = _rand_1d(rng, d) if rng.random() < 0.7 else ELL
                     arg = ["2d", i0, _rand_1d(rng, n)]
         elif op in ("concat", "rconcat"):
             if n > item["nmax"] * 2:
@@ -549,27 +680,33 @@ def gen_trace(item):
         elif op == "del_atom":
             if kind != "array":
                 continue
-            arg = [rng.randint(-n - 1, n)]
+            i = rng.randint(-n - 1, n)
+            arg = [i, _int_form(rng, i, True)]
         elif op == "del_model":
             if kind != "stack":
                 continue
-            arg = [rng.randint(-d - 1, d)]
+            i = rng.randint(-d - 1, d)
+            arg = [i, _int_form(rng, i, True)]
         elif op == "set_atom":
             if kind != "array":
                 continue
-            arg = [rng.randint(-n - 1, n), rng.randint(60, 99), rng.randint(0, 9), rng.randint(1, 9) * 1000]
+            i = rng.randint(-n - 1, n)
+            arg = [i, rng.randint(60, 99), rng.randint(0, 9), rng.randint(1, 9) * 1000, _int_form(rng, i, True)]
         elif op == "swap_atoms":
             if kind != "array" or n == 0:
                 continue
-            arg = [rng.randint(-n, n), rng.randint(0, n - 1)]
+            i, j = rng.randint(-n, n), rng.randint(0, n - 1)
+            arg = [i, j, _int_form(rng, i, True), _int_form(rng, j, True)]
         elif op == "take_then_overwrite":
             if kind != "array":
                 continue
-            arg = [rng.randint(-n - 1, n), rng.randint(60, 99), rng.randint(0, 9), rng.randint(1, 9) * 1000]
+            i = rng.randint(-n - 1, n)
+            arg = [i, rng.randint(60, 99), rng.randint(0, 9), rng.randint(1, 9) * 1000, _int_form(rng, i, True)]
         elif op == "set_model":
             if kind != "stack" or d == 0:
                 continue
-            arg = [rng.randint(-d, d - 1), rng.randint(0, d - 1), rng.randint(1, 7)]
+            i, j = rng.randint(-d, d - 1), rng.randint(0, d - 1)
+            arg = [i, j, rng.randint(1, 7), _int_form(rng, i, True), _int_form(rng, j, True)]
         elif op == "set_annot":
             m = n if rng.random() < 0.85 else n + 1
             arg = [[rng.randint(-9, 99) for _ in range(m)]]
@@ -590,55 +727,136 @@ def gen_trace(item):
             arg = []
         progress({"op": op, "arg": arg, "events": len(events)})
         obj, oc, out = apply_real(obj, op, arg)
-        events.append({"op": op, "arg": arg, "oc": oc, "out": out, "obs": project(obj)})
+        obs, good = _tlc_safe(project(obj))
+        events.append({"op": op, "arg": arg, "oc": oc, "out": out, "obs": obs})
     return {"events": events}
 
 
 # --------------------------------------------------------------------------- classification
+F_ZERO_DIM = "C01-zero-dim-array-index"
+
+
+def _is_incoherent(S):
+    return isinstance(S, dict) and ("incoherent" in S or "!incoherent" in S.get("ex", ()))
+
+
 def classify(mm):
+    """C01-zero-dim-array-index: `x[i]` / `x[i, j]` (reading) where a component is an in-range
+    integer handed over as a zero-dimensional integer ndarray (form "a0").  The specification
+    (and numpy, and a list of atoms) read it as that integer; AtomArray.__getitem__ /
+    AtomArrayStack.__getitem__ test `isinstance(index, numbers.Integral)` only, so the call is
+    either refused (IndexError out of _subarray) or - in the model position of a stack - returns
+    an AtomArrayStack whose model axis has collapsed (2-D coord, (3,3) box).  Exactly that shape:
+    operation `index`, at least one "a0" component, and either expected ok / observed refusal, or
+    observed a stack with collapsed coordinates while an "a0" is in the model position."""
+    if mm.get("op") != "index" or mm.get("kind") not in ("step", "event"):
+        return None
+    arg, exp, obs = mm.get("arg"), mm.get("expected") or {}, mm.get("observed") or {}
+    if not arg:
+        return None
+    a0 = [k for k, x in enumerate(arg[1:]) if x[0] == "int" and len(x) > 2 and x[2] == "a0"]
+    if not a0:
+        return None
+    if exp.get("oc") == "ok" and obs.get("oc") == "Rejected":
+        return F_ZERO_DIM
+    S = obs.get("S")
+    if obs.get("oc") == "ok" and 0 in a0 and _is_incoherent(S) and S.get("kind") == "stack":
+        return F_ZERO_DIM
     return None
 
 
-# --------------------------------------------------------------------------- orchestration
-def run(ctx):
-    from harness.tlabind import dot, tlc
+# --------------------------------------------------------------------------- form coverage
+CORE_FORMS = {"int": {"py", "i64", "i32", "u8", "u64", "a0"}, "arr": {"list", "i64", "i32", "u8", "u64"},
+              "mask": {"np", "list"}, "slice": {"py", "np"}}
+_INT_FORM_ARGS = {"del_atom": (1,), "del_model": (1,), "set_atom": (4,), "take_then_overwrite": (4,),
+                  "swap_atoms": (2, 3), "set_model": (3, 4)}
+
+
+def count_forms(calls, into):
+    """calls: iterable of (container kind, op, arg).  Counts, per position of an index
+    ("array:1d", "array:2d1", "stack:1d", "stack:2d0", "stack:2d1") and per integer position of a
+    deletion / assignment, how often every (index kind, form) was handed over."""
+    for ckind, op, arg in calls:
+        if op == "index":
+            for k, x in enumerate(arg[1:]):
+                pos = f"{ckind}:1d" if arg[0] == "1d" else f"{ckind}:2d{k}"
+                key = f"{x[0]}/{x[2]}"
+                into.setdefault(pos, {})
+                into[pos][key] = into[pos].get(key, 0) + 1
+        elif op in _INT_FORM_ARGS:
+            for k in _INT_FORM_ARGS[op]:
+                into.setdefault(op, {})
+                key = f"int/{arg[k]}"
+                into[op][key] = into[op].get(key, 0) + 1
+    return into
+
+
+def require_forms(cov, where, per_position):
+    """Vacuity guard.  per_position (S2): every core form at every position of every operation.
+    Otherwise (S3, random): every form family somewhere."""
     from harness.tlabind.core import Vacuity
-    from harness.tlabind.helpers import binding_selftest, run_pool, tlc_validate
+
+    missing = []
+    if per_position:
+        for pos in ("array:1d", "array:2d1", "stack:1d", "stack:2d0", "stack:2d1"):
+            for kind, forms in CORE_FORMS.items():
+                for f in forms:
+                    if not cov.get(pos, {}).get(f"{kind}/{f}"):
+                        missing.append(f"{pos} {kind}/{f}")
+        for op in _INT_FORM_ARGS:
+            for f in CORE_FORMS["int"] - {"a0"}:
+                if not cov.get(op, {}).get(f"int/{f}"):
+                    missing.append(f"{op} int/{f}")
+    else:
+        idx, sca = {}, {}
+        for pos, d in cov.items():
+            for key, n in d.items():
+                tgt = sca if pos in _INT_FORM_ARGS else idx
+                tgt[key] = tgt.get(key, 0) + n
+        np_int = sum(n for k, n in idx.items() if k.startswith("int/") and k[4:] in _NPT)
+        np_arr = sum(n for k, n in idx.items() if k.startswith("arr/") and k[4:] in _NPT and k != "arr/i64")
+        for name, n in (("numpy integer scalar as index", np_int), ("non-default integer ndarray", np_arr),
+                        ("list of ints", idx.get("arr/list", 0)), ("list of bools", idx.get("mask/list", 0)),
+                        ("slice with numpy bounds", idx.get("slice/np", 0)),
+                        ("numpy integer scalar in deletion/assignment",
+                         sum(n for k, n in sca.items() if k[4:] in _NPT))):
+            if not n:
+                missing.append(name)
+    if missing:
+        raise Vacuity(f"{where}: index forms never handed over: {missing[:12]} ({len(missing)} in all)")
+
+
+# --------------------------------------------------------------------------- orchestration
+def _s2_graph(ctx, d, dotf, tag, limit, forms_required):
+    """S2 for one dumped state graph: every transition (or `limit` covering paths) is executed
+    against the real classes and compared with the specification's state."""
+    from harness.tlabind import dot
+    from harness.tlabind.core import Vacuity
+    from harness.tlabind.helpers import run_pool
     from harness.tlabind.tlaval import to_py
 
-    ctx.assumptions += [
-        "annotations other than res_id are fixed functions of the atom's uid (atom_name): 'annotations follow the atom' is observed through them",
-        "coordinates are exactly representable float32 triples (c, c/2, -c) of an integer cell c",
-        "index arrays with duplicates on an object with a bond list are refused (documented NotImplementedError); boolean masks have exactly n entries",
-        "aliasing of views (slices, get_array) is not modelled: only copy() independence is claimed",
-        "stack[i] = atom and atom deletion on stacks are not public operations and are not generated",
-        "exhaustive model: <= 4 atoms, <= 2 models, one or two calls after construction; longer histories through recorded traces",
-    ]
-    d = tlc.scratch_dir("c01")
-    dotf = os.path.join(d, "g.dot")
-    if ctx.quick:
-        ctx.tlc("AtomContainer", "MC.cfg", stage="S1", dump_dot=dotf, workers=1, timeout=900)
-    else:
-        ctx.tlc("AtomContainer", "MC_deep.cfg", stage="S1", workers=16, timeout=2400)
-        ctx.tlc("AtomContainer", "MC_thorough.cfg", stage="S1-graph", dump_dot=dotf, workers=1,
-                timeout=2400, count=False)
-    ctx.exhaustive = True
     g = dot.load(dotf)
-    labels, lab_ix, ops_seen = [], {}, {}
+    labels, lab_ix, ops_seen, lab_kind = [], {}, {}, []
+    form_cov = {}
     for (_s, lab, _d) in g.edges:
         if lab not in lab_ix:
             c = to_py(dot.parse_label(lab)[1][0])
             lab_ix[lab] = len(labels)
             labels.append([c[3], c[4]])
+            lab_kind.append(c[0])
         o = labels[lab_ix[lab]][0]
         ops_seen[o] = ops_seen.get(o, 0) + 1
+        count_forms([(lab_kind[lab_ix[lab]], o, labels[lab_ix[lab]][1])], form_cov)
+    if forms_required:
+        require_forms(form_cov, f"S2 (state graph {os.path.basename(dotf)})", True)
+    ctx.cov[f"s2_{tag}index_forms"] = form_cov
     need = {"new", "index", "concat", "rconcat", "to_stack", "repeat", "del_atom", "del_model", "set_atom",
             "swap_atoms", "take_then_overwrite",
             "set_model", "set_annot", "add_extra", "del_extra", "set_bonds", "clear_bonds", "set_box",
             "clear_box", "copy", "copy_poke", "poke_after_copy", "from_template"}
     if need - set(ops_seen):
         raise Vacuity(f"operations never taken: {sorted(need - set(ops_seen))}")
-    ctx.cov["transitions_per_op"] = ops_seen
+    ctx.cov[f"{tag}transitions_per_op"] = ops_seen
     ids = {nid: k for k, nid in enumerate(g.state_text)}
     states = [None] * len(ids)
     nrej = 0
@@ -648,10 +866,9 @@ def run(ctx):
         nrej += st["oc"] == "Rejected"
     if nrej == 0:
         raise Vacuity("no refused call in the model")
-    gfile = os.path.join(d, "graph.json")
+    gfile = os.path.join(d, f"{tag}graph.json")
     with open(gfile, "w") as f:
         json.dump({"states": states, "labels": labels}, f)
-    limit = None if ctx.quick else 250000
     paths, covered = dot.covering_paths(g, max_len=8, limit=limit, rng=ctx.rng)
     plist = [{"init": ids[root], "steps": [[lab_ix[lab], ids[dst]] for lab, dst in steps]}
              for root, steps in paths]
@@ -662,21 +879,62 @@ def run(ctx):
     ctx.traces_validated += len(plist)
     ctx.evaluations += sum(r.get("steps", 0) for r in results if r)
     ctx.nontrivial += sum(1 for p in plist if len(p["steps"]) >= 2)
-    ctx.cov["rule"] = "behaviour = construction followed by calls; non-trivial = at least one call after construction"
-    ctx.cov["s2_transitions_covered"] = covered
-    ctx.cov["s2_transitions_total"] = len(g.edges)
+    ctx.cov[f"s2_{tag}transitions_covered"] = covered
+    ctx.cov[f"s2_{tag}transitions_total"] = len(g.edges)
     for p in plist[:2]:
         ctx.sample({"s2_path": [labels[li] for li, _ in p["steps"]]})
+
+
+def run(ctx):
+    from harness.tlabind import tlc
+    from harness.tlabind.helpers import binding_selftest, run_pool, tlc_validate
+
+    ctx.assumptions += [
+        "annotations other than res_id are fixed functions of the atom's uid (atom_name): 'annotations follow the atom' is observed through them",
+        "coordinates are exactly representable float32 triples (c, c/2, -c) of an integer cell c",
+        "index arrays with duplicates on an object with a bond list are refused (documented NotImplementedError); boolean masks have exactly n entries",
+        "index forms (Dom_Form): an integer is a Python int, a numpy integer scalar (int8..uint64) that can hold it, or - for reading only - a zero-dimensional integer ndarray; an index array is a list of ints or an integer ndarray (int8..uint64); a mask is a bool ndarray or a list of bools; slice bounds are Python or numpy ints. Deletion and assignment positions (documented as int) take the scalar forms only (Dom_IntForm)",
+        "aliasing of views (slices, get_array) is not modelled: only copy() independence is claimed",
+        "stack[i] = atom and atom deletion on stacks are not public operations and are not generated",
+        "exhaustive model: <= 4 atoms, <= 2 models, one or two calls after construction; longer histories through recorded traces",
+    ]
+    d = tlc.scratch_dir("c01")
+    dotf = os.path.join(d, "g.dot")
+    if ctx.quick:
+        # construction + one call, every call of the universe in every core form
+        ctx.tlc("AtomContainer", "MC.cfg", stage="S1", dump_dot=dotf, workers=1, timeout=900)
+        ctx.exhaustive = True
+        _s2_graph(ctx, d, dotf, "", None, True)
+    else:
+        ctx.tlc("AtomContainer", "MC_deep.cfg", stage="S1", workers=16, timeout=2400)
+        ctx.exhaustive = True
+        # construction + one call, the rich universe, every form (all executed)
+        ctx.tlc("AtomContainer", "MC_forms.cfg", stage="S1-forms", dump_dot=dotf, workers=1,
+                timeout=2400, count=False)
+        _s2_graph(ctx, d, dotf, "forms_", None, True)
+        # construction + two calls, the rich universe in the default forms (250000 paths)
+        dotf2 = os.path.join(d, "g2.dot")
+        ctx.tlc("AtomContainer", "MC_thorough.cfg", stage="S1-graph", dump_dot=dotf2, workers=1,
+                timeout=2400, count=False)
+        _s2_graph(ctx, d, dotf2, "", 250000, False)
+    ctx.cov["rule"] = "behaviour = construction followed by calls; non-trivial = at least one call after construction"
     # ---- S3 ----------------------------------------------------------------------------
     ntr = 300 if ctx.quick else 3000
     titems = [{"seed": ctx.rng.randrange(1 << 30), "length": 12 if ctx.quick else 14,
                "nmax": 6 if k % 3 else 12, "dmax": 3} for k in range(ntr)]
     tres = run_pool(ctx, "harness.drivers.c01:gen_trace", titems, stage="S3", item_timeout=120)
     traces = [r["events"] for r in tres if r and r.get("events")]
+    s3_forms = {}
+    for t in traces:
+        count_forms([(p["obs"]["kind"], e["op"], e["arg"]) for p, e in zip(t, t[1:])], s3_forms)
+    require_forms(s3_forms, "S3 (recorded histories)", False)
+    ctx.cov["s3_index_forms"] = s3_forms
     mms = tlc_validate(ctx, traces, timeout=1800)
     for m in mms:
         _tag, tid, l, flags, eoc, eout, eS = m
         e = traces[tid - 1][l - 1]
+        if eoc == "OutsideDomain":
+            raise RuntimeError(f"S3: the driver generated a call outside the form domain: {e['op']} {e['arg']}")
         ctx.mismatch({"stage": "S3", "kind": "event", "op": e["op"], "arg": e["arg"],
                       "bad": [n for n, ok in zip(("oc", "state", "out"), flags) if not ok],
                       "history": [[x["op"], x["arg"]] for x in traces[tid - 1][:l]],
